@@ -300,6 +300,28 @@ PROPS["C08"] = dict(
     assumptions=[],
 )
 
+PROPS["C10"] = dict(
+    level_text="-delete is specified over the file-tree model with physical identity: the entries that pass the test in front are processed in the "
+               "depth-first order of the reference walk; a non-directory (a link itself, never its target) is unlinked, a directory removed iff "
+               "nothing is left in it, a failed removal makes the action false and the exit status non-zero without stopping the walk. TLC enumerates "
+               "starting points x {-P,-H,-L} x tests x depth ranges on a tree with links to a file inside, to a file and a directory outside and "
+               "nowhere, checks laws (same entries as -depth -print, directories only when empty, nothing outside changes under -P, failures exactly for "
+               "matched non-empty directories) and prints matched / deleted / what is left; the harness builds twin trees, runs -depth EXPR -print0 on "
+               "one and EXPR -delete -printf on the other and checks every node (inside and outside) afterwards; random trees validated by TLC.",
+    level_note="Trusted: TLC; the harness's twin construction and per-node lstat afterwards (plus a count of everything in the sandbox). Judged where every "
+               "physical node is met at most once (a directory reachable both directly and through a followed link makes the outcome depend on "
+               "directory-listing order) and the starting point is not '.'.",
+    mc=[dict(module="mc/MC_Delete.tla", cfg=dict(quick="mc/MC_Delete_quick.cfg", thorough="mc/MC_Delete_thorough.cfg"), workers=4)],
+    record=dict(quick=400, thorough=10000),
+    selftest=dict(quick=40, thorough=200),
+    trace=dict(module="trace/T_Delete.tla", cfg="trace/T_Delete.cfg"),
+    trace_chunk=400,
+    rule="MC: 4 starting-point lists x {P,H,L} x 10 tests x 4 depth ranges on a 15-node tree; trace: random trees up to 22 (40) nodes with links "
+         "(to files, directories, dangling, cyclic), several starting points, depth ranges, 9 tests.",
+    exhaustive_note="bounded-exhaustive over the catalogue",
+    assumptions=["removals of non-directories always succeed (the harness runs as root)"],
+)
+
 _WALK_NOTE = ("Trusted: TLC; the harness's materialisation of tree values (mkdir/symlink) and the in-process call of find_main with captured "
               "output. Unreadable directories cannot be produced as root in-process and are exercised by C11's fixture only. Link targets are "
               "non-links or dangling (no link-to-link chains).")
@@ -379,3 +401,16 @@ def m_regex_not_longest(fail):
             _re_has(ast, lambda e: e.get("t") in _QUANT and _re_has(e.get("a"), lambda x: x.get("t") in _QUANT))
     pat = bytes(fail["in"]["pattern"]).decode("utf-8", "replace") if all(c < 256 for c in fail["in"]["pattern"]) else ""
     return "|" in pat or pat.count("(") >= 2
+
+
+def m_H_delete_symlink_root(fail):
+    """C10: -H, and a starting point that is a symbolic link to a directory (-delete implies -depth)."""
+    i = fail["in"]
+    if i["cfg"].get("mode") != "H":
+        return False
+    t = i["tree"]
+    for r in i["roots"]:
+        n = r["node"]
+        if n and t[n - 1]["kind"] == "l" and t[n - 1]["target"] and t[t[n - 1]["target"] - 1]["kind"] == "d":
+            return True
+    return False
